@@ -151,6 +151,12 @@ def m_np_sort(eng, st, args, kwargs, node):
 
 def m_np_where(eng, st, args, kwargs, node):
     """np.where(mask) -> (indices of the true entries, ascending,)"""
+    if len(args) == 3 and all(isinstance(a, VRef) and isinstance(st.heap[a.addr], H2D) for a in args):
+        c_, x_, y_ = (st.heap[a.addr] for a in args)
+        eng.oblige(st, "np.where(c, x, y): the three arrays have the same shape",
+                   z3.And(c_.rows == x_.rows, c_.rows == y_.rows, c_.cols == x_.cols, c_.cols == y_.cols), "safety", node)
+        cg, xg, yg = c_.get, x_.get, y_.get
+        return st.alloc(H2D(c_.rows, c_.cols, lambda r, c: ite(eng.truth(cg(r, c), st), xg(r, c), yg(r, c)), etype=x_.etype))
     if len(args) != 1:
         raise Unsupported("np.where with three arguments (line %d)" % node.lineno)
     o = seq_of(eng, st, args[0], node)
